@@ -3,7 +3,8 @@ open Lean
 namespace Hdl21.Drv.C03
 open Hdl21.J
 
-/-- Fuel bound for the resolver: shown sufficient by `Props.C03.resolve_total`. -/
+/-- Fuel handed to the resolver. That it suffices is *not* a theorem (the resolver's theorems hold for every fuel: whatever it
+    returns is right); running out would show as a model refusal where the implementation accepts — compared on every run. -/
 def fuelFor (c : SConn) : Nat :=
   match c.width with
   | .ok w => (c.size + 2) * (2 * w + 4) + 8
